@@ -246,7 +246,10 @@ def check_property(pid, tier="quick", seed=0, jobs=None):
                        smt2=o["extra"].get("smt2", "")[:100000])
         driver = _driver_for(mod, pid, o["name"])
         rep = None
-        if driver:
+        if o["backend"] == "native-bounded" and o.get("model") is not None:
+            # found by running the real code: the stand-in's witness IS the failing input
+            rep = dict(reproduced=True, witness=o.get("model"), detail=o.get("detail"), note="failing input found by the native stand-in on the real code")
+        elif driver:
             rep = run_replay_driver(driver, payload)
         payload["replay"] = rep
         payload["replay_driver"] = driver
